@@ -5,3 +5,17 @@ PROPS = {}
 
 _NYB = "deductive core designed (DESIGN.md section 4) but not built yet; not claimed until its obligations are generated and discharged"
 NOT_APPLICABLE = {"C%02d" % i: _NYB for i in range(1, 21)}
+
+
+PROPS['C01'] = {
+    'level': 'proof',
+    'text': 'Deductive: every path of the real _lincomb_impl (all dtypes kinds x 5 alias patterns x symbolic size / layout flags / scalars / values), '
+            'the NumpyTensorSpace kernels, LinearSpace.lincomb/multiply/divide/zero and all LinearSpaceElement arithmetic dunders are symbolically '
+            'executed from /repo source and every postcondition (value, frame, identity of result, errors before any write) is discharged by z3/sympy/cvc5; '
+            'callers are checked against callee contracts. Proof level is right because the code is a finite decision tree over pointwise primitives.',
+    'note': 'trusted: pyvc interpreter + NumPy/BLAS kernel contracts K1-K5, floats as reals (A1), no memory overlap between distinct elements (A2); '
+            '__pow__/__ipow__ for exponents -4..8 only (bounded-in: exponent)',
+    'technique': 'contract-based deductive verification: VC generation by symbolic execution of the real source (ast) against sidecar contracts, z3/sympy/cvc5',
+}
+for _k in PROPS:
+    NOT_APPLICABLE.pop(_k, None)
